@@ -32,13 +32,20 @@ for n in "${names[@]}"; do
   git -C /repo worktree remove --force $wt
   rm -rf /verif/.build/alt-$(echo "$wt" | md5sum | cut -c1-8) $base/out-$n
 done
+# merge with the rows of earlier runs (a row is replaced when its seeded change was run again)
+if [ -f $results ]; then
+  grep '^| ' $results | grep -v '^| seeded change' | grep -v '^|---' | while IFS= read -r row; do
+    n=$(echo "$row" | cut -d'|' -f2 | tr -d ' ')
+    grep -q "^| $n |" $tmpres || echo "$row" >> $tmpres
+  done
+fi
 {
-  echo "# Seeded changes vs. checks (tools/selftest.sh, quick tier, scratch copy of /repo HEAD $(git -C /repo rev-parse --short HEAD))"
+  echo "# Seeded changes vs. checks (tools/selftest.sh, quick tier, scratch copies of /repo HEAD; last run at $(git -C /repo rev-parse --short HEAD))"
   echo
   echo "| seeded change | property | result | first violation key | time |"
   echo "|---|---|---|---|---|"
   sort $tmpres
-} > $results
+} > $results.new && mv $results.new $results
 rm -f $tmpres
 rmdir $base 2>/dev/null
 cat $results
